@@ -363,17 +363,27 @@ fn exec(case: &[String], out: &mut Out) {
 	out.put(case[0].clone());
 	let mut run: Option<Run> = None;
 	for l in &case[1..] {
+		if l.starts_with("procn ") {
+			procn(l, &mut run, &mut info_state, &ids, out);
+		} else {
+			step(l, &mut run, &mut info_state, &ids, out);
+		}
+	}
+}
+
+/// one op (everything but `procn`)
+fn step(l: &String, run: &mut Option<Run>, info_state: &mut InfoState, ids: &Ids, out: &mut Out) {
 		let tok: Vec<&str> = l.split_whitespace().collect();
 		match tok[0] {
 			"info.clocks" => {
 				info_state.parse_clocks(&tok);
 				out.put("ok");
-				continue;
+				return;
 			}
 			"info.mods" => {
 				info_state.parse_mods(&tok);
 				out.put("ok");
-				continue;
+				return;
 			}
 			"new" => {
 				let r = make(&tok, &ids);
@@ -384,8 +394,8 @@ fn exec(case: &[String], out: &mut Out) {
 				if !r.slice_consistent {
 					out.oracle_fail("static_slice_inconsistent", l);
 				}
-				run = Some(r);
-				continue;
+				*run = Some(r);
+				return;
 			}
 			_ => {}
 		}
@@ -805,7 +815,6 @@ fn exec(case: &[String], out: &mut Out) {
 		if s_now == 6 {
 			r.ever_stopped = true;
 		}
-	}
 }
 
 /// `!oracle static_fault …` for every fault in the trace, classified by the inputs of the case
@@ -1415,6 +1424,8 @@ pub fn gen(rng: &mut Rng, n: usize, thorough: bool, stats: &mut Stats) -> Vec<St
 		case += 1;
 		if rng.chance(1, 7) {
 			gen_tween_case(rng, &mut out, stats);
+		} else if rng.chance(1, 12) {
+			gen_delayed_start_case(rng, &mut out, stats);
 		} else {
 			gen_case(rng, &mut out, stats);
 		}
@@ -1613,4 +1624,96 @@ pub fn gen_ood(rng: &mut Rng, n: usize, _thorough: bool, stats: &mut Stats) -> V
 		}
 	}
 	out
+}
+
+// ---------------------------------------------------------------------------------------------
+// C16: delayed starts keep their real time at every device rate
+// ---------------------------------------------------------------------------------------------
+
+/// `procn <len> <dt> <count> [<delay ns>]`: `count` process calls of `len` frames (every per-`proc` oracle runs on each),
+/// printing the handle after the last one and the index of the first call whose output was not silent (`first=-1`: none).
+/// With `<delay ns>`: the op begins at the moment a `StartTime::Delayed(delay)` was armed (a sound built with it, or a
+/// `resume` with it read by the preceding `start`), on a sound that is audible as soon as it runs.  C16: the sound
+/// starts in the buffer that contains real time `delay` — within one buffer, plus the half nanosecond by which each
+/// buffer's duration may be rounded (`Duration` counts whole nanoseconds) — at every device rate and buffer size.
+fn procn(l: &String, run: &mut Option<Run>, info_state: &mut InfoState, ids: &Ids, out: &mut Out) {
+	let tok: Vec<&str> = l.split_whitespace().collect();
+	let (len, dt, count) = (pu(tok[1]), p64(tok[2]), pu(tok[3]) as i64);
+	let line = format!("proc {} {}", tok[1], tok[2]);
+	let mut sink = Out::new();
+	let (mut first, mut last) = (-1i64, String::new());
+	for j in 0..count {
+		step(&line, run, info_state, ids, &mut sink);
+		let t = sink.lines.pop().unwrap_or_default();
+		sink.lines.clear();
+		let mut it = t.split(' ');
+		last = format!("{} {} {}", it.next().unwrap_or(""), it.next().unwrap_or(""), it.next().unwrap_or(""));
+		if first < 0 && it.any(|x| x != "00000000" && x != "80000000") {
+			first = j;
+		}
+	}
+	// the per-call oracles of `proc` (their detail names the single call; the replay is this op)
+	for o in &sink.oracle {
+		let body = o.strip_prefix("!oracle ").unwrap_or(o);
+		let (name, _) = body.split_once(' ').unwrap_or((body, ""));
+		out.oracle_fail(name, l);
+	}
+	out.put(format!("{} first={}", last, first));
+	if let Some(d) = tok.get(4) {
+		let d = pu(d) as f64 * 1e-9;
+		let b = len as f64 * dt;
+		// the buffer that contains real time d, counted from the beginning of this op
+		let want = (d / b).ceil() - 1.0;
+		let slack = 1.0 + 0.5e-9 * (count as f64 + 1000.0) / b + 1e-6;
+		let total = count as f64 * b;
+		if first >= 0 {
+			if (first as f64 - want).abs() > slack {
+				out.oracle_fail(
+					"delayed_start_real_time",
+					format!("started in buffer {} (after {:.6} s), real time {:.6} s lies in buffer {} | {}", first, first as f64 * b, d, want, l),
+				);
+			}
+		} else if total > d + (slack + 1.0) * b {
+			out.oracle_fail("delayed_start_real_time", format!("not started after {:.6} s, delay {:.6} s | {}", total, d, l));
+		}
+	}
+}
+
+/// a unit DC sound (looping, neutral volume and panning) with `StartTime::Delayed(d)` — on the sound itself, or on a
+/// `resume` after an instant pause — rendered at device rates 8 k … 192 k in small buffers until shortly after `d`
+fn gen_delayed_start_case(rng: &mut Rng, out: &mut Vec<String>, stats: &mut Stats) {
+	stats.hit("case_delayed_start");
+	let rate = rng.pick(&[8000u64, 11025, 22050, 44100, 48000, 88200, 96000, 192000, 192000]);
+	let len = rng.pick(&[1u64, 4, 16, 16, 32, 64, 128]);
+	let dt = 1.0 / rate as f64;
+	let b = len as f64 * dt;
+	// 10 ms … a few seconds, but at most ~20000 buffers
+	let d_ms = rng.pick(&[10u64, 25, 100, 250, 500, 1000, 2000, 3000]);
+	let d_ns = ((d_ms as f64 * 1e-3).min(20000.0 * b) * 1e9) as u64 + rng.below(1000);
+	let count = ((d_ns as f64 * 1e-9) / b).ceil() as u64 + rng.pick(&[4u64, 8, 40]);
+	let sr = rng.pick(&[44100u64, 48000, 8000]);
+	let on_resume = rng.chance(1, 3);
+	out.push(format!(
+		"new {} 64 dc={} none {} n=0 n=0~n=64 0 fix:{} fix:{} fix:{} none",
+		sr,
+		o32(1.0),
+		if on_resume { "imm".to_string() } else { format!("del:{}", d_ns) },
+		o32(0.0),
+		o64(1.0),
+		o32(0.0)
+	));
+	out.push("start".into());
+	if on_resume {
+		out.push(format!("proc {} {}", len, o64(dt)));
+		out.push("pause imm;0;lin".into());
+		out.push("start".into());
+		out.push(format!("proc {} {}", len, o64(dt)));
+		out.push(format!("resume del:{} imm;0;lin", d_ns));
+		out.push("start".into());
+		stats.hit("delayed_resume");
+	}
+	out.push(format!("procn {} {} {} {}", len, o64(dt), count, d_ns));
+	out.push("start".into());
+	out.push(format!("procn {} {} {}", len, o64(dt), rng.pick(&[1u64, 3, 10])));
+	stats.hit("procn");
 }
